@@ -225,13 +225,13 @@ LINEAR_UNARY = {  # jnp function -> effect on the kind
     'sum': lambda k: 'Gen', 'mean': lambda k: 'Gen', 'diff': lambda k: 'Gen', 'trace': lambda k: 'Gen',
     'real': lambda k: 'Gen', 'imag': lambda k: 'Gen', 'conj': lambda k: 'Gen', 'conjugate': lambda k: 'Gen',
     'negative': scale_kind, 'positive': lambda k: k, 'asarray': lambda k: k, 'array': lambda k: k, 'copy': lambda k: k,
-    'triu': select_kind, 'tril': select_kind, 'nansum': None,
+    'triu': select_kind, 'tril': select_kind, 'nansum': None, 'diag': lambda k: 'Gen', 'diagflat': lambda k: 'Gen',
 }
 FFT_LINEAR = {'fft', 'ifft', 'rfft', 'irfft', 'fft2', 'ifft2', 'fftn', 'ifftn', 'fftshift', 'ifftshift', 'hfft', 'ihfft'}
 BILINEAR = {'einsum', 'dot', 'matmul', 'tensordot', 'kron', 'convolve', 'correlate', 'inner', 'outer', 'vdot', 'multiply', 'cross'}
 STACKING = {'concatenate', 'stack', 'hstack', 'vstack', 'dstack', 'column_stack', 'block'}
 CREATE_ZERO = {'zeros', 'zeros_like'}
-CREATE_PAR = {'ones', 'ones_like', 'full', 'full_like', 'empty', 'empty_like', 'eye', 'identity', 'arange', 'linspace', 'diag', 'tri', 'indices'}
+CREATE_PAR = {'ones', 'ones_like', 'full', 'full_like', 'empty', 'empty_like', 'eye', 'identity', 'arange', 'linspace', 'tri', 'indices'}
 STATIC_FUNCS = {'result_type', 'broadcast_shapes', 'dtype', 'promote_types', 'iinfo', 'finfo', 'ndim', 'shape', 'size', 'isscalar', 'issubdtype', 'can_cast'}
 NONLINEAR_HINT = {'abs', 'absolute', 'square', 'sqrt', 'exp', 'log', 'cos', 'sin', 'tan', 'arccos', 'arcsin', 'arctan', 'arctan2', 'power', 'maximum',
                   'minimum', 'clip', 'sign', 'round', 'floor', 'ceil', 'sort', 'argsort', 'argmax', 'argmin', 'max', 'min', 'prod', 'var', 'std',
